@@ -135,8 +135,8 @@ library:
     for (char *it = strtok_r(dsl, ",", &s3); it; it = strtok_r(NULL, ",", &s3)) {
         char *full = unhex(it); char *arg = strchr(full, ':'); if (arg) *arg++ = 0; else arg = "";
         /* production-sized buffer first (default datasource_message_max_length 2047 + NUL), then a large one */
-        char *sbuf = malloc(2048); sbuf[0] = 0; int rvs = snoopy_datasourceregistry_callByName(full, sbuf, 2048, arg);
-        buf[0] = 0; int rv = snoopy_datasourceregistry_callByName(full, buf, bufsz, arg);
+        char *sbuf = malloc(2048); sbuf[0] = 0; errno = ERANGE; /* the caller's ambient errno must not matter */ int rvs = snoopy_datasourceregistry_callByName(full, sbuf, 2048, arg);
+        buf[0] = 0; errno = 0; int rv = snoopy_datasourceregistry_callByName(full, buf, bufsz, arg);
         if (!first) printf(","); first = 0;
         char key[600]; snprintf(key, sizeof key, "%s%s%s", full, *arg ? ":" : "", arg);
         printf("\""); for (unsigned char *p = (unsigned char *)key; *p; p++) printf("%02x", *p); printf("\":{\"rv\":%d,\"rvs\":%d,", rv, rvs); jhex("v", buf); printf(","); jhex("vs", sbuf); printf("}"); free(sbuf);
